@@ -32,12 +32,13 @@ Proof. exact call_tag_writes_nothing_back. Qed.
 Print Assumptions c07_call_writes_nothing_back.
 
 (** Non-interference: what a render tag produces depends on the caller only
-    through the values of the arguments passed, the template's global data and
-    the copy depth - not on the caller's locals, counters, loop variables,
+    through the values of the arguments passed, the template's global data, the
+    configured depth limit and the copy depth - not on the caller's locals, counters, loop variables,
     block scopes, cycles or macros. *)
 Theorem c07_render_isolated : forall g ld fuel tn var args c1 c2 b,
   root_globals c1 = root_globals c2 ->
   copy_depth c1 = copy_depth c2 ->
+  dlimit c1 = dlimit c2 ->
   eval_namespace (eval fuel) c1 args = eval_namespace (eval fuel) c2 args ->
   (forall il ve al, var = Some (il, ve, al) -> eval fuel c1 ve = eval fuel c2 ve) ->
   let r1 := render g ld (S fuel) (NRender tn var args) c1 b in
